@@ -131,6 +131,10 @@ class C18(Check):
                 for ta in tas:
                     for dt in dts:
                         yield {"entry": e["name"], "variant": var["label"], "dtype": dt, "tenalg": ta, "off": off}
+                        if dt != "float64" and ta == "core" and off == OFFSETS[tier][0]:
+                            # the same data in a tiny / large unit: numerical guards (floors, eps comparisons) must not change the dtype
+                            for sc in (1e-9, 1e6):
+                                yield {"entry": e["name"], "variant": var["label"], "dtype": dt, "tenalg": ta, "off": off, "scale": sc}
 
     # ------------------------------------------------------------------------------
     def run_case(self, case, ctx):
@@ -140,9 +144,9 @@ class C18(Check):
         e = entries()[case["entry"]]
         var = next(x for x in e["variants"] if x["label"] == case["variant"])
         dt = np.dtype(case["dtype"])
-        d = CAT.Dat(dt, case.get("off", 0))
+        d = CAT.Dat(dt, case.get("off", 0), case.get("scale", 1.0))
         name, label, ta = e["name"], var["label"], case["tenalg"]
-        tag = f"{name}[{label}] dtype={dt} tenalg={ta} table-offset={d.off}"
+        tag = f"{name}[{label}] dtype={dt} tenalg={ta} table-offset={d.off}" + (f" data-unit={case['scale']:g}" if "scale" in case else "")
 
         prev_ta = tenalg.get_backend()
         prev_be = tl.get_backend()
